@@ -785,6 +785,19 @@ func c12SetErrorFlow(p *Prog, r *Report, rule string) {
 		fmt.Print(f.Dump())
 	}
 	sites := f.CallSites(kStoreSet)
+	if len(sites) == 0 {
+		// through a method of the inline client that hands the reader to the store use case (db.SetReader)
+		for _, n := range f.Nodes {
+			if n.Ast == nil {
+				continue
+			}
+			for _, c := range callsIn(n.Ast, false) {
+				if h := p.staticCallee(fi.Pkg, c); h != nil && h.Pkg == fi.Pkg && p.funcCallsDeep(h, p.keysPred(kStoreSet)) {
+					sites = append(sites, f.bindOf(n, c))
+				}
+			}
+		}
+	}
 	if len(sites) != 1 {
 		r.Viol(rule, k+"#set-error", p.pos(lit), fmt.Sprintf("%d calls of the store usecase's Set in the storing goroutine", len(sites)))
 		return
